@@ -20,6 +20,7 @@ import (
 	"context"
 	"errors"
 	"fmt"
+	"reflect"
 
 	"github.com/cloudwego/eino/internal/serialization"
 )
@@ -253,6 +254,16 @@ func (s *streamConverter) restoreOutputs(isStream bool, values map[string]any) e
 	return restore(values, s.outputPairs, isStream)
 }
 
+// A value written to a channel through the field mapping of a workflow edge is no longer of the
+// source node's output type: it is the fragment of the target's input the mapping produced, always a
+// map[string]any (fieldMap / streamFieldMap). Such a value is converted as what it is.
+var mappedFragmentConvertPair = defaultStreamConvertPair[map[string]any]()
+
+func isMappedFragment(actual reflect.Type, convPair streamConvertPair) bool {
+	return actual == mappedFragmentConvertPair.elemType && convPair.elemType != nil &&
+		convPair.elemType != actual && convPair.elemType.Kind() != reflect.Interface
+}
+
 func convert(values map[string]any, convPairs map[string]streamConvertPair, isStream bool) error {
 	if !isStream {
 		return nil
@@ -265,6 +276,9 @@ func convert(values map[string]any, convPairs map[string]streamConvertPair, isSt
 		sr, ok := v.(streamReader)
 		if !ok {
 			return fmt.Errorf("checkpoint conv stream fail, value of [%s] isn't stream", key)
+		}
+		if isMappedFragment(sr.getChunkType(), convPair) {
+			convPair = mappedFragmentConvertPair
 		}
 		nValue, err := convPair.concatStream(sr)
 		if err != nil {
@@ -283,6 +297,9 @@ func restore(values map[string]any, convPairs map[string]streamConvertPair, isSt
 		convPair, ok := convPairs[key]
 		if !ok {
 			return fmt.Errorf("checkpoint restore stream fail, node[%s] have not been registered", key)
+		}
+		if v != nil && isMappedFragment(reflect.TypeOf(v), convPair) {
+			convPair = mappedFragmentConvertPair
 		}
 		sr, err := convPair.restoreStream(v)
 		if err != nil {
